@@ -739,6 +739,18 @@ Proof.
   split; [vm_compute; reflexivity|]. exists (lab_node 0). split; vm_compute; reflexivity.
 Qed.
 
+(* the TriX half of F9 is repaired (commit 3d9dc36a): a TriX label equal to the id of a node
+   already in the store, and a label shared by two TriX calls, are in scope and accepted *)
+Definition w_f9_trix : case :=
+  {| c_init := [((100, 3, 1), 1)];
+     c_docs := [ {| d_fmt := TRIX; d_target := 0;
+                    d_stmts := [(DL 0, 3, DC 2, GC 2); (DL 0, TAGP, DC (tag 0 0), GC 2)] |};
+                 {| d_fmt := TRIX; d_target := 0;
+                    d_stmts := [(DL 0, 3, DC 2, GL 0); (DL 0, TAGP, DC (tag 1 0), GC 2)] |} ] |}.
+
+Lemma f9_trix_fixed : wf w_f9_trix /\ kf w_f9_trix = 0 /\ spec_ok w_f9_trix (model_obs w_f9_trix) = true.
+Proof. repeat split; vm_compute; reflexivity. Qed.
+
 (* the witness of the repaired finding F12: on the code before commit 57c67bab an N-Quads call
    deleted what <urn:x-rdflib:default> held; the repaired model keeps it *)
 Definition w_f12 : case :=
